@@ -120,14 +120,13 @@ Lookup(G, r) ==
 \* Chain.updateExternal(final, external, roundTime, strict): "ok" | "err" | "panic".
 \* early: roundTime is before the start of the referenced final round.
 \* The "too early against the best round" test needs final rounds more than 5 hours apart and is
-\* outside the explored time window - except for a head record, whose start is 0.
+\* outside the explored time window.  (Head records never get here: they are refused before.)
 \* The code aborts when the durable link and ChainState.RoundLinks disagree.
 ExtCheck(G, c, e, early, strict) ==
     IF e.node = c THEN "err"
     ELSE IF e.number < G.ml[c][e.node] THEN "err"
     ELSE IF G.dl[c][e.node] # G.ml[c][e.node] THEN "panic"
-    ELSE IF strict /\ ( \/ e.head       \* start 0: always "too early" against the best available round
-                       \/ early
+    ELSE IF strict /\ ( \/ early
                        \/ (~G.has[e.node] /\ G.num[e.node] = e.number + 1 /\ e.number > 0) ) THEN "err"
     ELSE "ok"
 
@@ -137,9 +136,11 @@ SetExt(G, c, r, e) ==
 \* startNewRoundAndPersist(cache, references, timestamp, finalized)
 \*   o = [c, self, ext, early, fin]; self in {"good" (hash of the closed head round), "stale", "bogus"}
 \* result [res, dummy, G]
+\* A reference that resolves to a HEAD round record (a chain identifier) is refused on both paths
+\* ("external round ... is not final").
 \* An unknown external on the finalized path starts the round with the PREVIOUS external reference
 \* ("dummy"); storage.StartNewRound then rewrites the durable link from the record that reference
-\* resolves to now (the same number for a final round; the current head number for a head record).
+\* resolves to (a final round, hence the number the link already has).
 StartRound(G, o) ==
     LET c == o.c
         e == Lookup(G, o.ext)
@@ -153,6 +154,7 @@ StartRound(G, o) ==
     ELSE IF ~e.found THEN
          IF o.fin THEN [res |-> "ok", dummy |-> TRUE, G |-> adv([G EXCEPT !.dl[c][p.node] = p.number])]
          ELSE fail("err")
+    ELSE IF e.head THEN fail("err")
     ELSE IF x # "ok" THEN fail(x)
     ELSE [res |-> "ok", dummy |-> FALSE, G |-> adv(SetExt(G, c, o.ext, e))]
 
@@ -167,6 +169,7 @@ UpdateHead(G, o) ==
     IF G.has[c] THEN fail("err")
     ELSE IF o.self # "same" THEN fail("err")
     ELSE IF ~e.found THEN fail("err")
+    ELSE IF e.head THEN fail("err")
     ELSE IF x # "ok" THEN fail(x)
     ELSE [res |-> "ok", dummy |-> FALSE, G |-> SetExt(G, c, o.ext, e)]
 
@@ -213,14 +216,9 @@ StateOK20(G) ==
         /\ \A x \in DOMAIN G.num : G.dl[c][x] = G.ml[c][x]
 
 (***************************************************************************)
-(* Known finding C20-1 (listed in known_findings.json): a reference that is *)
-(* a chain identifier is resolved to that chain's HEAD round record and is  *)
-(* accepted; the new head then references a round that is not final and the *)
-(* link is set to the head number.  Signature: the head's external          *)
-(* reference after the step is a chain identifier.  (A later "dummy" start  *)
-(* re-resolves it and moves only the durable link, after which the durable  *)
-(* and in-memory links disagree and updateExternal aborts.)                 *)
+(* History: before commit 1bb41c2 of the repository the finalized path      *)
+(* accepted a chain identifier as external reference (it resolved to the    *)
+(* head round record); recorded as fixed finding C20-1.  The specification  *)
+(* describes the fixed behaviour; reverting the fix violates StepOK20.       *)
 (***************************************************************************)
-KnownFinding_C20_1(G2, c) == G2.ext[c].k = "H"
-
 =============================================================================
